@@ -45,6 +45,7 @@ from isla.helpers import (
     Maybe,
     get_isla_resource_file_content,
     eassert,
+    nonterminals,
 )
 from isla.isla_predicates import (
     STANDARD_STRUCTURAL_PREDICATES,
@@ -791,6 +792,20 @@ def parse_grammar(
                     file=stderr,
                 )
                 sys.exit(USAGE_ERROR)
+
+        undefined_nonterminals = sorted(
+            {
+                nonterminal
+                for expansions in grammar.values()
+                for expansion in expansions
+                for nonterminal in nonterminals(expansion)
+            }.difference(grammar.keys())
+            | ({"<start>"} if "<start>" not in grammar else set())
+        )
+        if undefined_nonterminals:
+            raise ValueError(
+                "the grammar has no rules for " + ", ".join(undefined_nonterminals)
+            )
 
     except Exception as exc:
         exc_string = str(exc)
